@@ -72,17 +72,17 @@ fn leg(dur: f64, heading: f64, gs: f64, surface: bool, alt: f64, vrate: f64) -> 
     }
 }
 
-struct AcGen {
-    plan: AcPlan,
+pub struct AcGen {
+    pub plan: AcPlan,
     /// visibility windows [start, end) in s, with the reporting period
-    windows: Vec<(f64, f64, f64)>,
+    pub windows: Vec<(f64, f64, f64)>,
     /// where a reference has to be (the surface segment), if any
-    surface_point: Option<(f64, f64)>,
+    pub surface_point: Option<(f64, f64)>,
     /// parity of the first report of the last window (directed scenarios)
-    last_window_parity: Option<bool>,
+    pub last_window_parity: Option<bool>,
 }
 
-fn gen_aircraft(rng: &mut Rng, kind: u8, max_reports: usize) -> AcGen {
+pub fn gen_aircraft(rng: &mut Rng, kind: u8, max_reports: usize) -> AcGen {
     let icao = rng.range(1, 0xFF_FFFE) as u32;
     let (lat0, lon0) = world::pick_start(rng);
     let tisb = rng.chance(0.1);
@@ -270,7 +270,7 @@ fn rhumb_to(lat1: f64, lon1: f64, lat2: f64, lon2: f64) -> (f64, f64) {
     ((h + 360.0) % 360.0, d)
 }
 
-fn emit_reports(rng: &mut Rng, ai: u8, g: &AcGen, max_reports: usize) -> Vec<Report> {
+pub fn emit_reports(rng: &mut Rng, ai: u8, g: &AcGen, max_reports: usize) -> Vec<Report> {
     let mut v = Vec::new();
     let mut odd = rng.chance(0.5);
     for (wi, &(a, b, per)) in g.windows.iter().enumerate() {
